@@ -9,6 +9,7 @@ validation errors (kind, path, reported value, message), fake() under the consta
 repr and substitute().  (C) spec/Trace_Custom.tla decides the recorded comparisons.
 """
 from . import absmap as am
+from .common import safe_repr
 from . import core, mutants, valgen
 from .subcommon import ok_validate
 
@@ -75,7 +76,7 @@ def probe_values(real, n, rng):
 def compare(plain, wrapped, nvals, rng):
     import d42
     ev = {"repr_same": repr(plain) == repr(wrapped), "vals": [], "gens": [], "subs": [],
-          "prepr": repr(plain)[:300], "wrepr": repr(wrapped)[:300]}
+          "prepr": safe_repr(plain)[:300], "wrepr": safe_repr(wrapped)[:300]}
     values = probe_values(plain, nvals, rng)
     for v in values:
         rec = {"errs_same": False, "msgs_same": False}
